@@ -2237,9 +2237,11 @@ chld_cb(EV_P_ ev_child *c, int UNUSED(revents))
 		if (!t->nsim) {
 			pool_task(t);
 		}
-	} else if (UNLIKELY(t->w.reschedule_cb == NULL && !t->nsim)) {
+	} else if (UNLIKELY(t->w.reschedule_cb == NULL && !t->nsim &&
+			    !ev_is_pending(&t->w))) {
 		/* we promised taskB_cb to kill this guy,
-		 * once the last of his children has gone */
+		 * once the last of his children has gone and unless
+		 * his last run is about to be started in this iteration */
 		unsched(EV_A_ &t->w, 0);
 	}
 	free_chld(c);
